@@ -106,5 +106,10 @@ SignFails(L) ==
          (IF L.sign.signable /\ L.sign.rightErr = "" /\ ~L.sign.sameTx THEN {"signing-altered-the-transaction"} ELSE {}) \cup
          (IF L.sign.signable /\ L.sign.rightErr = "" /\ ~L.sign.engine THEN {"witness-rejected-by-script-engine"} ELSE {}) \cup
          (IF L.sign.signable /\ L.sign.rightErr = "" /\ ~L.sign.wrongAfterErr THEN {"wrong-passphrase-accepted-after-a-successful-attempt"} ELSE {}) \cup
-         (IF L.sign.signable /\ L.sign.rightErr = "" /\ ~L.sign.resignOK THEN {"signing-again-after-an-edit-left-stale-witnesses"} ELSE {})
+         (IF L.sign.signable /\ L.sign.rightErr = "" /\ ~L.sign.resignOK THEN {"signing-again-after-an-edit-left-stale-witnesses"} ELSE {}) \cup
+         \* the wallet is locked again when a signing call returns - refused, successful or failed half way
+         (IF L.sign.cachedAfterWrong # 0 THEN {"private-keys-cached-after-a-refused-attempt"} ELSE {}) \cup
+         (IF L.sign.cachedAfterRight # 0 THEN {"private-keys-cached-after-signing"} ELSE {}) \cup
+         (IF L.sign.partialTried /\ ~L.sign.partialErr THEN {"transaction-with-an-unknown-input-signed"} ELSE {}) \cup
+         (IF L.sign.partialTried /\ L.sign.partialCached # 0 THEN {"private-keys-cached-after-a-request-that-failed-half-way"} ELSE {})
 =============================================================================
